@@ -51,6 +51,10 @@ CHECKS = {
   text="Theorems for EVERY byte string / weight vector / draw: the reader model yields exactly length/16 records and record i is the decoding of bytes 16i..16i+15 (none dropped, duplicated or invented; empty and truncated files included); the random policy returns the entry whose cumulative-weight interval contains draw mod total, hence each entry for exactly weight-many residues and never an entry of weight zero; the best policy returns a recorded entry of maximal weight. Tie: PolyglotBook built from generated files (truncation at every offset, duplicate keys, zero weights) compared with the model map; every sampled move compared exactly with the model for the same draw (std::mt19937 replayed by the harness); decode_move on raw castling encodings.",
   note="std::ifstream::read is modelled (short read fails, inserts nothing), tied by truncations at every offset; mt19937 and uniform_int_distribution are replayed, not modelled; the deviation from exact proportionality caused by 2^64 mod total is stated, not bounded by a theorem. No axioms.",
   tech="Coq proof by list induction (reader, sampler, argmax) + differential correspondence with replayed PRNG"),
+ "C20": dict(
+  text="Coq theorems about the model of TimeManager::calculateTime / computeTimeForFixedLength (generic in the float structure): C20_nonneg and C20_monotone hold for EVERY float structure whose operations are monotone, sign-preserving roundings (Section Abstract; what survives -Ofast) and in particular for binary64 round-to-nearest-even (Flocq instance calc64), for every libm oracle with importance(x) >= 1/128; C20_cap: 10*calc64 <= 7*T for all 0 <= T < 2^31, proved from the exact value 0.7d = 6305039478318694*2^-53 < 7/10 with a representable separator (no error analysis); C20_le_clock. All inputs, no bound on movestogo/ply/increment. Tie: the extracted model instantiated with native binary64 and the implementation's own importance() values must EQUAL a strict-IEEE compile of time_manager.cpp on boundary-grid + random clock states; the oracle hypothesis is checked exhaustively (x = 0..1401); the three properties are re-checked directly on the strict and on the repository-flag (-Ofast) build, monotonicity on pairs (T, T+d).",
+  note="Axioms: the standard library's classical real-number axioms that Reals/Flocq depend on (listed by Print Assumptions in the evidence: ClassicalDedekindReals.sig_forall_dec, sig_not_dec, functional_extensionality_dep). Modelled, not verified: libm pow/exp (oracle), the compiler's float code generation under -Ofast (assumed to keep each operation a monotone sign-preserving rounding; re-checked by running the properties on that build), int overflow excluded by the quantifier's ranges (T + inc*199 < 2^31).",
+  tech="Coq/Flocq proof (monotone roundings; exact binary64 constant for the cap) + exact differential correspondence against a strict-IEEE build"),
 }
 
 NOT_YET = "check not built yet in this round (planned, see DESIGN.md section 10); not a limit of the technique"
